@@ -988,20 +988,23 @@ Proof.
   apply andb_true_iff in Hf as [F1 F2]. apply IH; auto. apply reg_add_fresh; auto.
 Qed.
 
+Lemma nth_repeat {A} (x : A) n q o : nth_error (repeat x n) q = Some o -> o = x.
+Proof. intros H. apply nth_error_In in H. apply repeat_spec in H. exact H. Qed.
+
 Lemma init_inv regs : forallb (fun eh => fresh_h (snd eh)) regs = true -> Inv None (init_state regs).
 Proof.
-  intros Hf. constructor; cbn.
+  intros Hf. unfold init_state. constructor; sst.
   - unfold init_reg. apply init_reg_fresh; auto.
   - intros d [].
   - intros p [].
   - intros j d H. destruct j; discriminate.
   - intros j d q e H. destruct j; discriminate.
-  - intros q o H. destruct q; discriminate.
+  - intros q o H W. apply nth_repeat in H. subst. discriminate.
   - intros j d q H. destruct j; discriminate.
   - intros d q [].
-  - intros q o e H. destruct q; discriminate.
-  - intros q1 q2 o1 o2 e H. destruct q1; discriminate.
-  - intros _. repeat split; auto.
+  - intros q o e H E. apply nth_repeat in H. subst. discriminate.
+  - intros q1 q2 o1 o2 e H _ E. apply nth_repeat in H. subst. discriminate.
+  - intros _. repeat split; auto. intros H. congruence.
 Qed.
 
 Lemma reachable_inv lost s : reachable lost s -> Inv None s.
